@@ -997,6 +997,437 @@ theorem Inv.reorg (hE : ExecLaw exec txsOf) (hU : UKeyed U) {N : Node} (h : Inv 
         rw [mem_sortDedup, List.mem_filter]
         simp only [Bool.not_eq_true', List.any_eq_false, List.contains_eq_mem, decide_eq_true_eq, not_exists, not_and]
 
+/-- Steps that leave the chain DB, the state root and the orphan pool alone. -/
+theorem Inv.same {N N' : Node} (h : Inv exec txsOf U g N) (e1 : N'.blocks = N.blocks) (e2 : N'.byNo = N.byNo)
+    (e3 : N'.latest = N.latest) (e4 : N'.best = N.best) (e5 : N'.txIdx = N.txIdx) (e6 : N'.rcpt = N.rcpt)
+    (e7 : N'.marker = N.marker) (e8 : N'.sdbRoot = N.sdbRoot) (e9 : N'.orphans = N.orphans) : Inv exec txsOf U g N' :=
+  Inv.frame h (fun i b hb => by rw [e1]; exact hb) (fun i b hb => by rw [e1] at hb; exact h.inU _ _ hb)
+    (by rw [e9]; exact h.poolU) e2 e3 e4 e5 (fun i n hr => by rw [e6]; exact hr) e8 e7
+
+theorem Inv.cacheBad {N : Node} (h : Inv exec txsOf U g N) (b : Block) : Inv exec txsOf U g (Aergo.Chain.cacheBad N b) :=
+  Inv.same h rfl rfl rfl rfl rfl rfl rfl rfl rfl
+
+theorem Inv.touchBad {N : Node} (h : Inv exec txsOf U g N) (id : Nat) : Inv exec txsOf U g (Aergo.Chain.touchBad N id).2 := by
+  unfold Aergo.Chain.touchBad
+  split
+  · exact h
+  · exact Inv.same h rfl rfl rfl rfl rfl rfl rfl rfl rfl
+
+theorem Inv.addOrphan {N N1 : Node} (h : Inv exec txsOf U g N) {b : Block} (hbU : U b.id = some b)
+    (ha : Aergo.Chain.addOrphan N b = some N1) : Inv exec txsOf U g N1 := by
+  unfold Aergo.Chain.addOrphan at ha
+  split at ha
+  · injection ha with ha; subst ha; exact h
+  · split at ha
+    · split at ha
+      · cases ha
+      · next e rest hrest =>
+        injection ha with ha; subst ha
+        refine Inv.frame h (fun _ _ hb => hb) h.inU ?_ rfl rfl rfl rfl (fun _ _ hr => hr) rfl rfl
+        intro x hx
+        rcases List.mem_append.mp hx with hx | hx
+        · exact h.poolU x (by rw [hrest]; exact List.mem_cons_of_mem _ hx)
+        · simp only [List.mem_singleton] at hx; subst hx; exact ⟨hbU, rfl⟩
+    · injection ha with ha; subst ha
+      refine Inv.frame h (fun _ _ hb => hb) h.inU ?_ rfl rfl rfl rfl (fun _ _ hr => hr) rfl rfl
+      intro x hx
+      rcases List.mem_append.mp hx with hx | hx
+      · exact h.poolU x hx
+      · simp only [List.mem_singleton] at hx; subst hx; exact ⟨hbU, rfl⟩
+
+/-- On a side branch the loop's `lastBlock` is stored. -/
+theorem runLoop_last (fuel : Nat) :
+    ∀ (N : Node) (blk : Block) (last : Option Block), Inv exec txsOf U g N → U blk.id = some blk →
+      (∀ l, last = some l → N.blocks l.id = some l) →
+      ∀ l, (runLoop exec false fuel N blk last).2.2 = some l → (runLoop exec false fuel N blk last).2.1.blocks l.id = some l := by
+  induction fuel with
+  | zero => intro N blk last _ _ hl l hr; exact hl l hr
+  | succ fuel ih =>
+    intro N blk last h hbU hl l
+    simp only [runLoop, Aergo.Chain.apply, Bool.false_eq_true, if_false]
+    have hs : (Aergo.Chain.storeSide N blk).blocks blk.id = some blk := by simp [Aergo.Chain.storeSide]
+    have h1 := Inv.storeSide h hbU
+    split
+    · intro hr; simp only at hr; injection hr with hr; subst hr; exact hs
+    · next p o hf =>
+      obtain ⟨hmem, _⟩ := find_mem hf
+      split
+      · intro hr; simp only at hr; injection hr with hr; subst hr; exact hs
+      · refine ih _ o (some blk) ?_ (h1.poolU _ hmem).1 ?_ l
+        · exact Inv.frame h1 (fun _ _ hb => hb) h1.inU (fun e he => h1.poolU e (List.mem_filter.mp he).1) rfl rfl rfl rfl
+            (fun _ _ hr => hr) rfl rfl
+        · intro l' hl'; injection hl' with hl'; subst hl'; exact hs
+
+/-- **Every arrival preserves the invariant** (valid, invalid, duplicate, orphan, fork, reorganisation), provided the
+block's identifier is honest. -/
+theorem Inv.addBlock (hE : ExecLaw exec txsOf) (hU : UKeyed U) {N : Node} (h : Inv exec txsOf U g N) {b : Block}
+    (hbU : U b.id = some b) : Inv exec txsOf U g (Aergo.Chain.addBlock exec N b).2 := by
+  unfold Aergo.Chain.addBlock
+  have h0 : Inv exec txsOf U g { N with out := [] } := Inv.same h rfl rfl rfl rfl rfl rfl rfl rfl rfl
+  have ht := Inv.touchBad h0 b.id
+  generalize Aergo.Chain.touchBad { N with out := [] } b.id = tb at ht
+  obtain ⟨hit, M⟩ := tb
+  simp only at ht ⊢
+  split
+  · exact ht
+  · split
+    · exact ht
+    · split
+      · -- orphan
+        split
+        · exact ht
+        · next N1 ha => exact Inv.same (Inv.addOrphan ht hbU ha) rfl rfl rfl rfl rfl rfl rfl rfl rfl
+      · next prev hprev =>
+        split
+        · exact Inv.cacheBad ht b
+        · next hno =>
+          have hno' : prev.no + 1 = b.no := by simpa using hno
+          split
+          · exact Inv.cacheBad ht b
+          · next main hmain =>
+            have hpre : main = true → M.byNo M.latest = some b.parent ∧ b.no = M.latest + 1 := by
+              intro hm; subst hm
+              unfold isMainChain at hmain
+              split at hmain
+              · cases hmain
+              · split at hmain
+                · cases hmain
+                · next hh hby =>
+                  injection hmain with hmain
+                  have hpar : b.parent = hh := by simpa using hmain
+                  subst hpar
+                  refine ⟨hby, ?_⟩
+                  have hb1 := ht.best_main.1
+                  rw [ht.best_no, hby] at hb1
+                  have hid : b.parent = M.best.id := by injection hb1
+                  have hb2 := ht.best_main.2
+                  rw [← hid, hprev] at hb2
+                  injection hb2 with hb2; subst hb2
+                  rw [← ht.best_no]; omega
+            have hrl := Inv.runLoop (U := U) (g := g) hE main (M.orphans.length + 1) M b none ht hbU hpre
+            have hlast : main = false → ∀ l, (Aergo.Chain.runLoop exec main (M.orphans.length + 1) M b none).2.2 = some l →
+                (Aergo.Chain.runLoop exec main (M.orphans.length + 1) M b none).2.1.blocks l.id = some l := by
+              intro hm; subst hm
+              exact runLoop_last (exec := exec) (txsOf := txsOf) (U := U) (g := g) (M.orphans.length + 1) M b none ht hbU
+                (fun l hl => by cases hl)
+            generalize Aergo.Chain.runLoop exec main (M.orphans.length + 1) M b none = rl at hrl hlast
+            obtain ⟨ok, N1, last⟩ := rl
+            simp only at hrl
+            cases ok with
+            | false => exact Inv.cacheBad hrl b
+            | true =>
+              simp only
+              split
+              · exact hrl
+              · next hmf =>
+                have hmf' : main = false := by simpa using hmf
+                subst hmf'
+                split
+                · exact hrl
+                · next l =>
+                  have hl := hlast rfl l rfl
+                  split
+                  · next hlt =>
+                    have hr := Inv.reorg hE hU hrl hl hlt
+                    generalize Aergo.Chain.reorg exec N1 l = rr at hr
+                    obtain ⟨res, N2⟩ := rr
+                    simp only at hr
+                    cases res <;> simp only
+                    · exact hr
+                    · exact hr
+                    · exact Inv.cacheBad hr b
+                  · exact hrl
+
+/-! ### fork choice (C07) -/
+
+/-- The tip either stayed or moved strictly higher. -/
+def Grew (N N' : Node) : Prop := (N'.best = N.best ∧ N'.latest = N.latest) ∨ N.latest < N'.latest
+
+theorem Grew.rfl' (N : Node) : Grew N N := Or.inl ⟨rfl, rfl⟩
+
+theorem Grew.trans {A B C : Node} (h1 : Grew A B) (h2 : Grew B C) : Grew A C := by
+  rcases h1 with ⟨a, b⟩ | a <;> rcases h2 with ⟨c, d⟩ | c
+  · exact Or.inl ⟨by rw [c, a], by rw [d, b]⟩
+  · exact Or.inr (by omega)
+  · exact Or.inr (by omega)
+  · exact Or.inr (by omega)
+
+theorem execute_tip {N N' : Node} {b : Block} (he : Aergo.Chain.execute exec N b = some N') :
+    N'.best = b ∧ N'.latest = b.no := by
+  unfold Aergo.Chain.execute at he
+  split at he
+  · cases he
+  · injection he with he; subst he; exact ⟨rfl, rfl⟩
+
+theorem runLoop_grew (hE : ExecLaw exec txsOf) (main : Bool) (fuel : Nat) :
+    ∀ (N : Node) (blk : Block) (last : Option Block), Inv exec txsOf U g N → U blk.id = some blk →
+      (main = true → N.byNo N.latest = some blk.parent ∧ blk.no = N.latest + 1) →
+      Grew N (Aergo.Chain.runLoop exec main fuel N blk last).2.1 := by
+  induction fuel with
+  | zero => intro N blk last _ _ _; exact Grew.rfl' N
+  | succ fuel ih =>
+    intro N blk last h hbU hm
+    simp only [Aergo.Chain.runLoop]
+    split
+    · exact Grew.rfl' N
+    · next N1 hap =>
+      have h1 : Inv exec txsOf U g N1 ∧ Grew N N1 ∧ (main = true → N1.byNo N1.latest = some blk.id ∧ N1.latest = blk.no) := by
+        unfold Aergo.Chain.apply at hap
+        split at hap
+        · next hmain =>
+          obtain ⟨t1, t2⟩ := execute_tip hap
+          refine ⟨Inv.execute hE h hbU (hm hmain).1 (hm hmain).2 hap, Or.inr (by rw [t2, (hm hmain).2]; omega), fun _ => ?_⟩
+          have hI := Inv.execute hE h hbU (hm hmain).1 (hm hmain).2 hap
+          have := hI.best_main.1
+          rw [hI.best_no, t1] at this
+          exact ⟨this, t2⟩
+        · next hmain =>
+          injection hap with hap; subst hap
+          exact ⟨Inv.storeSide h hbU, Or.inl ⟨rfl, rfl⟩, fun hc => absurd hc hmain⟩
+      obtain ⟨hI1, hG1, hT1⟩ := h1
+      split
+      · exact hG1
+      · next p o hf =>
+        obtain ⟨hmem, hkey⟩ := find_mem hf
+        have hp := hI1.poolU _ hmem
+        split
+        · exact hG1
+        · next hno =>
+          have hno' : blk.no + 1 = o.no := by simpa using hno
+          have hkey' : p = blk.id := by simpa using hkey
+          have hop : o.parent = blk.id := by have := hp.2; simp only at this; rw [this]; exact hkey'
+          refine hG1.trans (Grew.trans (B := { N1 with orphans := N1.orphans.filter (fun e => e.1 != blk.id) }) (Or.inl ⟨rfl, rfl⟩) ?_)
+          apply ih
+          · exact Inv.frame hI1 (fun _ _ h => h) hI1.inU (fun e he => hI1.poolU e (List.mem_filter.mp he).1) rfl rfl rfl rfl
+              (fun _ _ h => h) rfl rfl
+          · exact hp.1
+          · intro hmain
+            obtain ⟨a, b⟩ := hT1 hmain
+            exact ⟨by show N1.byNo N1.latest = some o.parent; rw [a, hop], by show o.no = N1.latest + 1; omega⟩
+
+theorem puts_def (out : List Msg) : True := trivial
+
+/-- The transactions sent back to the pool among a list of messages. -/
+def putsOf (out : List Msg) : List Nat := out.filterMap (fun m => match m with | .put t => some t | _ => none)
+
+theorem putsOf_append (a b : List Msg) : putsOf (a ++ b) = putsOf a ++ putsOf b := by simp [putsOf]
+
+theorem rollforward_puts : ∀ (l : List Block) (N N2 : Node) (ok : Bool), rollforward exec N l = (ok, N2) →
+    putsOf N2.out = putsOf N.out := by
+  intro l
+  induction l with
+  | nil => intro N N2 ok hr; simp only [rollforward] at hr; injection hr with _ h2; subst h2; rfl
+  | cons x l ih =>
+    intro N N2 ok hr
+    simp only [rollforward] at hr
+    split at hr
+    · injection hr with _ h2; subst h2; rfl
+    · next N1 h1 =>
+      obtain ⟨_, _, hN1⟩ := executeBlock_some h1
+      rw [ih N1 N2 ok hr, hN1]
+      simp [putsOf]
+
+/-- What a reorganisation that is carried out is. -/
+theorem reorg_done (hU : UKeyed U) {N N' : Node} (h : Inv exec txsOf U g N) {top : Block}
+    (hst : N.blocks top.id = some top) (hgt : N.latest < top.no) (hr : Aergo.Chain.reorg exec N top = (.done, N')) :
+    ∃ gt, gather N top = some gt ∧ GatherSpec N top gt ∧ N.lib ≤ gt.brStart.no ∧
+      ExecAsc exec gt.brStart gt.newB.reverse ∧ (∀ x ∈ gt.newB, x.consOk = true) ∧
+      N'.best = top ∧ N'.latest = top.no ∧ N'.sdbRoot = top.claimed ∧
+      putsOf N'.out = putsOf N.out ++
+        sortDedup ((gt.oldB.flatMap (·.txs)).filter (fun t => !(gt.newB.reverse.any (fun b => b.txs.contains t)))) := by
+  unfold Aergo.Chain.reorg at hr
+  split at hr
+  · cases hr
+  · next gt hg =>
+    have gs := gather_spec hU h hst hgt hg
+    split at hr
+    · cases hr
+    · next hlib =>
+      dsimp only at hr
+      split at hr
+      · cases hr
+      · next N2 hrf =>
+        obtain ⟨f1, f2, f3, f4, f5, f6, f7, f8, f9⟩ := rollforward_frame _ _ _ _ hrf
+        obtain ⟨hea, hroot2, _⟩ := rollforward_ok _ _ _ gt.brStart rfl hrf
+        have hputs := rollforward_puts _ _ _ _ hrf
+        have hcons : ∀ (l : List Block) (M M2 : Node), rollforward exec M l = (true, M2) → ∀ x ∈ l, x.consOk = true := by
+          intro l
+          induction l with
+          | nil => intro _ _ _ x hx; cases hx
+          | cons a l ih =>
+            intro M M2 hm x hx
+            simp only [rollforward] at hm
+            split at hm
+            · cases hm
+            · next M1 hM1 =>
+              obtain ⟨_, hc, _⟩ := executeBlock_some hM1
+              rcases List.mem_cons.mp hx with rfl | hx'
+              · exact hc
+              · exact ih M1 M2 hm x hx'
+        have hlast : (gt.newB.reverse.getLastD gt.brStart) = top := by
+          have hnt := gs.new_top
+          have hnne := gs.new_ne
+          cases hnb : gt.newB with
+          | nil => exact absurd hnb hnne
+          | cons a l => rw [hnb] at hnt; simp only [List.head?_cons, Option.some.injEq] at hnt; subst hnt; simp
+        rw [hlast] at hroot2
+        have hnge : ¬ (N2.latest ≥ top.no) := by rw [f3]; show ¬ (N.latest ≥ top.no); omega
+        unfold swapChain at hr
+        simp only [if_neg hnge] at hr
+        injection hr with _ hr; subst hr
+        refine ⟨gt, rfl, gs, by omega, hea, fun x hx => hcons _ _ _ hrf x (List.mem_reverse.mpr hx), rfl, rfl, hroot2, ?_⟩
+        simp only [putsOf_append, hputs]
+        congr 1
+        simp [putsOf]
+
+/-- A reorganisation that is not carried out (no branch root, vetoed below the last irreversible block, an invalid
+block on the new branch) leaves the tip, the height index, the tx index and the state root where they were and
+offers nothing to the pool. -/
+theorem reorg_not_done {N N' : Node} (h : Inv exec txsOf U g N) {top : Block} {res : ReorgRes}
+    (hgt : N.latest < top.no) (hr : Aergo.Chain.reorg exec N top = (res, N')) (hres : res ≠ .done) :
+    N'.best = N.best ∧ N'.latest = N.latest ∧ N'.byNo = N.byNo ∧ N'.txIdx = N.txIdx ∧ N'.sdbRoot = N.sdbRoot ∧
+    putsOf N'.out = putsOf N.out := by
+  unfold Aergo.Chain.reorg at hr
+  split at hr
+  · injection hr with _ hr; subst hr; exact ⟨rfl, rfl, rfl, rfl, rfl, rfl⟩
+  · next gt hg =>
+    split at hr
+    · injection hr with _ hr; subst hr; exact ⟨rfl, rfl, rfl, rfl, rfl, rfl⟩
+    · dsimp only at hr
+      split at hr
+      · next N2 hrf =>
+        obtain ⟨f1, f2, f3, f4, f5, f6, f7, f8, f9⟩ := rollforward_frame _ _ _ _ hrf
+        have hputs := rollforward_puts _ _ _ _ hrf
+        injection hr with _ hr; subst hr
+        exact ⟨f4, f3, f2, f5, h.root.symm, hputs⟩
+      · next N2 hrf =>
+        obtain ⟨f1, f2, f3, f4, f5, f6, f7, f8, f9⟩ := rollforward_frame _ _ _ _ hrf
+        have hnge : ¬ (N2.latest ≥ top.no) := by rw [f3]; show ¬ (N.latest ≥ top.no); omega
+        unfold swapChain at hr
+        simp only [if_neg hnge] at hr
+        injection hr with hr1 _
+        exact absurd hr1.symm hres
+
+/-- **Completeness of the switch**: when the branch root is found, it is not below the last irreversible block, and the
+new branch executes block by block (and the consensus accepts its blocks), the reorganisation is carried out. -/
+theorem reorg_complete {N : Node} {top : Block} {gt : Gather} (hg : gather N top = some gt) (hlib : N.lib ≤ gt.brStart.no)
+    (hgt : N.latest < top.no) (hea : ExecAsc exec gt.brStart gt.newB.reverse) (hc : ∀ x ∈ gt.newB, x.consOk = true) :
+    (Aergo.Chain.reorg exec N top).1 = .done := by
+  unfold Aergo.Chain.reorg
+  rw [hg]
+  simp only
+  have : ¬ (gt.brStart.no < N.lib) := by omega
+  rw [if_neg this]
+  obtain ⟨N2, hN2⟩ := rollforward_complete (exec := exec) gt.newB.reverse { N with sdbRoot := gt.brStart.claimed } gt.brStart rfl hea
+    (fun x hx => hc x (List.mem_reverse.mp hx))
+  dsimp only
+  rw [hN2]
+  obtain ⟨_, _, f3, _⟩ := rollforward_frame _ _ _ _ hN2
+  have hnge : ¬ (N2.latest ≥ top.no) := by rw [f3]; show ¬ (N.latest ≥ top.no); omega
+  simp only [swapChain, if_neg hnge]
+
+theorem reorg_grew {N : Node} (top : Block) : Grew N (Aergo.Chain.reorg exec N top).2 := by
+  unfold Aergo.Chain.reorg
+  split
+  · exact Grew.rfl' N
+  · split
+    · exact Grew.rfl' N
+    · dsimp only
+      split
+      · next N2 hrf =>
+        obtain ⟨_, _, f3, f4, _⟩ := rollforward_frame _ _ _ _ hrf
+        exact Or.inl ⟨f4, f3⟩
+      · next N2 hrf =>
+        obtain ⟨_, _, f3, f4, _⟩ := rollforward_frame _ _ _ _ hrf
+        unfold swapChain
+        dsimp only
+        split
+        · exact Or.inl ⟨f4, f3⟩
+        · next hnge => exact Or.inr (by show N.latest < top.no; have : N2.latest = N.latest := f3; omega)
+
+/-- **The tip is never displaced by anything that is not strictly higher**: after any arrival the best block is the
+same block as before, or the best height grew. -/
+theorem addBlock_grew (hE : ExecLaw exec txsOf) {N : Node} (h : Inv exec txsOf U g N) {b : Block}
+    (hbU : U b.id = some b) : Grew N (Aergo.Chain.addBlock exec N b).2 := by
+  unfold Aergo.Chain.addBlock
+  have h0 : Inv exec txsOf U g { N with out := [] } := Inv.same h rfl rfl rfl rfl rfl rfl rfl rfl rfl
+  have ht := Inv.touchBad h0 b.id
+  have hg0 : Grew N (Aergo.Chain.touchBad { N with out := [] } b.id).2 := by
+    unfold Aergo.Chain.touchBad
+    split <;> exact Or.inl ⟨rfl, rfl⟩
+  generalize Aergo.Chain.touchBad { N with out := [] } b.id = tb at ht hg0
+  obtain ⟨hit, M⟩ := tb
+  simp only at ht hg0 ⊢
+  have cb : ∀ X : Node, Grew M X → Grew N (Aergo.Chain.cacheBad X b) := fun X hX =>
+    hg0.trans (hX.trans (Or.inl ⟨rfl, rfl⟩))
+  split
+  · exact hg0
+  · split
+    · exact hg0
+    · split
+      · split
+        · exact hg0
+        · next N1 ha =>
+          refine hg0.trans (Or.inl ?_)
+          unfold Aergo.Chain.addOrphan at ha
+          split at ha
+          · injection ha with ha; subst ha; exact ⟨rfl, rfl⟩
+          · split at ha
+            · split at ha
+              · cases ha
+              · injection ha with ha; subst ha; exact ⟨rfl, rfl⟩
+            · injection ha with ha; subst ha; exact ⟨rfl, rfl⟩
+      · next prev hprev =>
+        split
+        · exact cb M (Grew.rfl' M)
+        · next hno =>
+          have hno' : prev.no + 1 = b.no := by simpa using hno
+          split
+          · exact cb M (Grew.rfl' M)
+          · next main hmain =>
+            have hpre : main = true → M.byNo M.latest = some b.parent ∧ b.no = M.latest + 1 := by
+              intro hm; subst hm
+              unfold isMainChain at hmain
+              split at hmain
+              · cases hmain
+              · split at hmain
+                · cases hmain
+                · next hh hby =>
+                  injection hmain with hmain
+                  have hpar : b.parent = hh := by simpa using hmain
+                  subst hpar
+                  refine ⟨hby, ?_⟩
+                  have hb1 := ht.best_main.1
+                  rw [ht.best_no, hby] at hb1
+                  have hid : b.parent = M.best.id := by injection hb1
+                  have hb2 := ht.best_main.2
+                  rw [← hid, hprev] at hb2
+                  injection hb2 with hb2; subst hb2
+                  rw [← ht.best_no]; omega
+            have hrl := runLoop_grew (U := U) (g := g) hE main (M.orphans.length + 1) M b none ht hbU hpre
+            generalize Aergo.Chain.runLoop exec main (M.orphans.length + 1) M b none = rl at hrl
+            obtain ⟨ok, N1, last⟩ := rl
+            simp only at hrl
+            cases ok with
+            | false => exact cb N1 hrl
+            | true =>
+              simp only
+              split
+              · exact hg0.trans hrl
+              · split
+                · exact hg0.trans hrl
+                · next l =>
+                  split
+                  · have hr := reorg_grew (exec := exec) (N := N1) l
+                    generalize Aergo.Chain.reorg exec N1 l = rr at hr
+                    obtain ⟨res, N2⟩ := rr
+                    simp only at hr
+                    cases res <;> simp only
+                    · exact hg0.trans (hrl.trans hr)
+                    · exact hg0.trans (hrl.trans hr)
+                    · exact cb N2 (hrl.trans hr)
+                  · exact hg0.trans hrl
+
 end
 
 end Aergo.Chain
